@@ -166,6 +166,8 @@ MockClauses(stim, cli) ==
         <<"C02.OkTrailersAfterMessagesIsSuccess", (~refusedEnc /\ hc = -1 /\ m.status = 200 /\ tc = 0 /\ MockFramesOK(m)
                                                    /\ (stim.shape = "sstream" \/ Len(ParseFrames(MockBody(m)).frames) = 1)) => cli.ok>> >>
      \o (IF "tmeta" \in DOMAIN m THEN MockMetaClauses(stim, cli, hc, tc) ELSE <<>>)
+     \* m.st (optional): the status the peer's headers / trailers spell (code, message, details): what the caller is given is that status
+     \o (IF "st" \in DOMAIN m THEN << <<"C02.SameStatus", ~cli.ok /\ cli.st.some /\ cli.st.code = m.st.code /\ cli.st.msg = m.st.msg /\ cli.st.details = m.st.details>> >> ELSE <<>>)
 
 (* ---- what the client API must yield (C02, first sentence; C08) *)
 StatusEquals(st, end) == st.some /\ st.code = end.code /\ st.msg = end.msg /\ st.details = end.details
